@@ -17,13 +17,14 @@ structure ExecFacts where
   collectorInLoop : Bool
   doneAfterInsert : Bool
   doneOnEveryPath : Bool
+  errsBeforeDone : Bool          -- a step's error is recorded before the stepWg.Done() that can let Execute return
   rootAddSpawnWait : Bool
 deriving DecidableEq, Repr
 
 def ExecFacts.unrecognised : ExecFacts :=
   { recognised := false, resultCap := 0, errCap := none, order := [], collectorSelfSendsErr := true,
     collectors := 0, collectorInLoop := false, doneAfterInsert := false, doneOnEveryPath := false,
-    rootAddSpawnWait := false }
+    errsBeforeDone := false, rootAddSpawnWait := false }
 
 inductive PlanQueueKind
   | boundedSelfFedChan (cap : Nat)   -- steps travel through a bounded channel fed by its own consumer
